@@ -487,8 +487,117 @@ def store_slot_ok(fn, src):
         raise TranslateError('_store_slot: unexpected parameter list')
 
 
+# ---------------------------------------------------------- functions.normalize
+class Normalize:
+    """functions.normalize(array, keep_zeros=False): one row `array` (a 3-vector), its norm
+    `norms` (a scalar), clamped against config.EPSILON, `array / norms`."""
+
+    def __init__(self, fn, src):
+        self.fn, self.src = fn, src
+        a = fn.args
+        if [x.arg for x in a.args] != ['array', 'keep_zeros'] or a.kwonlyargs or a.vararg or a.kwarg or \
+                len(a.defaults) != 1 or not (isinstance(a.defaults[0], ast.Constant) and a.defaults[0].value is False):
+            _err(fn, 'normalize: expected (array, keep_zeros=False)', src)
+
+    def scalar(self, node, env):
+        """-> Gallina term of type T"""
+        src = self.src
+        if isinstance(node, ast.Name) and isinstance(env.get(node.id), str):
+            return env[node.id]
+        if isinstance(node, ast.Constant) and isinstance(node.value, (int, float)) and \
+                not isinstance(node.value, bool):
+            return lit(Fraction(repr(node.value)) if isinstance(node.value, float) else node.value)
+        if _chain(node) == ['config', 'EPSILON']:
+            return '(config_epsilon O)'
+        if isinstance(node, ast.Subscript) and ast.unparse(node.slice) in ('(slice(None, None, None), None)',
+                                                                            ':, None', ':, np.newaxis'):
+            return self.scalar(node.value, env)          # [:, None]: shape only
+        if isinstance(node, ast.Call):
+            ch = _chain(node.func)
+            kws = {k.arg: ast.unparse(k.value) for k in node.keywords}
+            if ch == ['np', 'linalg', 'norm'] and len(node.args) == 1 and \
+                    isinstance(node.args[0], ast.Name) and env.get(node.args[0].id) == ('V',) and \
+                    kws.get('axis') == '1' and set(kws) <= {'axis', 'keepdims'}:
+                return '(norm O array)'
+            if ch == ['np', 'where'] and len(node.args) == 3 and not kws:
+                c = self.cmp(node.args[0], env)
+                return f'(if {c} then {self.scalar(node.args[1], env)} else {self.scalar(node.args[2], env)})'
+            if ch in (['np', 'maximum'], ['np', 'fmax']) and len(node.args) == 2 and not kws:
+                a, b = (self.scalar(x, env) for x in node.args)
+                return f'(if (ltb_ O {a} {b}) then {b} else {a})'
+        _err(node, 'normalize: unsupported scalar expression', src)
+
+    def cmp(self, node, env):
+        if isinstance(node, ast.Compare) and len(node.ops) == 1:
+            a, b = self.scalar(node.left, env), self.scalar(node.comparators[0], env)
+            if isinstance(node.ops[0], ast.Lt):
+                return f'(ltb_ O {a} {b})'
+            if isinstance(node.ops[0], ast.Gt):
+                return f'(ltb_ O {b} {a})'
+        _err(node, 'normalize: unsupported comparison', self.src)
+
+    def block(self, stmts, env):
+        for s in stmts:
+            if isinstance(s, ast.Expr) and isinstance(s.value, ast.Constant):
+                continue
+            if isinstance(s, ast.If) and ast.unparse(s.test) == 'len(array.shape) != 2' and \
+                    len(s.body) == 1 and isinstance(s.body[0], ast.Raise) and not s.orelse:
+                continue                                   # shape guard
+            if isinstance(s, ast.Assign) and len(s.targets) == 1:
+                t = s.targets[0]
+                if isinstance(t, ast.Name):
+                    env[t.id] = self.scalar(s.value, env)
+                    continue
+                if isinstance(t, ast.Subscript) and isinstance(t.value, ast.Name) and \
+                        isinstance(env.get(t.value.id), str):
+                    c = self.cmp(t.slice, env)               # x[x < c] = v
+                    env[t.value.id] = f'(if {c} then {self.scalar(s.value, env)} else {env[t.value.id]})'
+                    continue
+            if isinstance(s, ast.If) and isinstance(s.test, ast.Name) and env.get(s.test.id) == ('B',):
+                e1, e2 = dict(env), dict(env)
+                r1, r2 = self.block(s.body, e1), self.block(s.orelse, e2)
+                if r1 is not None or r2 is not None:
+                    _err(s, 'normalize: return inside a branch', self.src)
+                for n in set(e1) & set(e2):
+                    if e1[n] != e2[n]:
+                        if not (isinstance(e1[n], str) and isinstance(e2[n], str)):
+                            _err(s, 'normalize: branches disagree', self.src)
+                        env[n] = f'(if {s.test.id} then {e1[n]} else {e2[n]})'
+                continue
+            if isinstance(s, ast.Return) and isinstance(s.value, ast.BinOp) and isinstance(s.value.op, ast.Div) \
+                    and isinstance(s.value.left, ast.Name) and env.get(s.value.left.id) == ('V',):
+                return f'(vdivs O array {self.scalar(s.value.right, env)})'
+            _err(s, f'normalize: unsupported statement {type(s).__name__}', self.src)
+        return None
+
+    def run(self):
+        r = self.block(self.fn.body, {'array': ('V',), 'keep_zeros': ('B',)})
+        if r is None:
+            _err(self.fn, 'normalize does not return', self.src)
+        return r
+
+
+def normalize_of(repo):
+    fsrc = (Path(repo) / 'femio' / 'functions.py').read_text()
+    fns = [n for n in ast.parse(fsrc).body if isinstance(n, ast.FunctionDef) and n.name == 'normalize']
+    if len(fns) != 1:
+        raise TranslateError('functions.normalize not found')
+    body = Normalize(fns[0], fsrc).run()
+    csrc = (Path(repo) / 'femio' / 'config.py').read_text()
+    eps = [n.value for n in ast.parse(csrc).body if isinstance(n, ast.Assign) and len(n.targets) == 1 and
+           isinstance(n.targets[0], ast.Name) and n.targets[0].id == 'EPSILON']
+    if len(eps) != 1 or not (isinstance(eps[0], ast.Constant) and isinstance(eps[0].value, float)):
+        raise TranslateError('config.EPSILON is not a float literal')
+    sha = hashlib.sha256(ast.get_source_segment(fsrc, fns[0]).encode()).hexdigest()
+    return {'body': body, 'epsilon': lit(Fraction(repr(eps[0].value)))}, sha
+
+
 # --------------------------------------------------------------------- top level
 REFERENCE = {
+    'normalize': {'body': '(vdivs O array (if keep_zeros then (if (ltb_ O (norm O array) (config_epsilon O)) '
+                          'then (lit O (1) 1) else (norm O array)) else (if (ltb_ O (norm O array) '
+                          '(config_epsilon O)) then (config_epsilon O) else (norm O array))))',
+                  'epsilon': '(lit O (1) 100000)'},
     'validate': {'raises': ['(raise_negative_metric && (existsb (fun x => (ltb_ O x (lit O (0) 1))) metric))'],
                  'elem': '(if return_abs_metric then (mabs O x) else x)'},
     'slot_answers': {'none': 'true', 'some': '(optl_eqb stored options)'},
@@ -522,9 +631,11 @@ def translate(repo):
         'volumes': entry_usage(methods['calculate_element_volumes'], 'volume', 'volumes', src),
         'metrics': entry_usage(methods['calculate_element_metrics'], 'metric', 'metrics', src),
     }
+    model['normalize'], nsha = normalize_of(repo)
     consumed = {'geometry_processor.py:' + n + ' (glue)':
                 hashlib.sha256(ast.get_source_segment(src, methods[n]).encode()).hexdigest()
                 for n in ('_validate_metric', '_slot_answers', '_store_slot')}
+    consumed['functions.py:normalize (glue)'] = nsha
     return model, consumed
 
 
@@ -551,6 +662,10 @@ def emit(model, translated=True):
            f"  | None => {model['slot_answers']['none']}",
            f"  | Some stored => {model['slot_answers']['some']}",
            '  end.', '']
+    out += ['(* config.EPSILON and functions.normalize on one row *)',
+            f"Definition config_epsilon {{T}} (O : Ops T) : T := {model['normalize']['epsilon']}.",
+            'Definition normalize_t {T} (O : Ops T) (keep_zeros : bool) (array : v3 T) : v3 T :=',
+            f"  {model['normalize']['body']}.", '']
     for name, e in model['entries'].items():
         out.append(f"Definition {name}_slot_key : string := \"{e['key']}\".")
         out.append(f"Definition {name}_slot_query : list field := [{'; '.join(e['query'])}].")
